@@ -93,4 +93,87 @@ ClassOf(a, K, vars) ==
                      /\ Applicable(a, V)
                      /\ \A x, y \in E : x[1] = y[1] => x = y}
   IN {Text(a, Flatten3(c[2]), c[1]) : c \in choices}
+
+(* ================= the canonicalizer's own pipeline, exactly (canonicalizer/canonicalizer.go) =================
+   A profile built from the canonicalizer's options on the DEFAULT parser is a composition of modelled parts:
+   default parse (+ default-scheme retry), repeated percent-decoding of host / path / every parameter name and value /
+   fragment re-entered through the standard's setters, remove-port / remove-user-info / remove-fragment (setters), and
+   sort-query on the list machine with the library's serializer.  CanonRun predicts its output for ANY input. *)
+Profile(rep, rport, ruser, rfrag, sort, dscheme) ==
+  [repeated |-> rep, removePort |-> rport, removeUserInfo |-> ruser, removeFragment |-> rfrag, sort |-> sort, defaultScheme |-> dscheme]
+ProfileOf(name) ==
+  CASE name = "WhatWg" -> Profile(FALSE, FALSE, FALSE, FALSE, "none", <<>>)
+    [] name = "WhatWgSortQuery" -> Profile(FALSE, FALSE, FALSE, FALSE, "keys", <<>>)
+    [] name = "canon:remove_userinfo" -> Profile(FALSE, FALSE, TRUE, FALSE, "none", <<>>)
+    [] name = "canon:remove_port" -> Profile(FALSE, TRUE, FALSE, FALSE, "none", <<>>)
+    [] name = "canon:remove_fragment" -> Profile(FALSE, FALSE, FALSE, TRUE, "none", <<>>)
+    [] name = "canon:sort_keys" -> Profile(FALSE, FALSE, FALSE, FALSE, "keys", <<>>)
+    [] name = "canon:sort_param" -> Profile(FALSE, FALSE, FALSE, FALSE, "param", <<>>)
+    [] name = "canon:default_scheme" -> Profile(FALSE, FALSE, FALSE, FALSE, "none", <<HTTP>>)
+    [] name = "canon:repeated_decode" -> Profile(TRUE, FALSE, FALSE, FALSE, "none", <<>>)
+    [] name = "canon:remove_userinfo+remove_port+remove_fragment+sort_keys+default_scheme+repeated_decode" -> Profile(TRUE, TRUE, TRUE, TRUE, "keys", <<HTTP>>)
+    [] name = "canon:remove_fragment+sort_param+repeated_decode" -> Profile(TRUE, FALSE, FALSE, TRUE, "param", <<>>)
+    [] name = "canon:remove_port+sort_keys" -> Profile(FALSE, TRUE, FALSE, FALSE, "keys", <<>>)
+ModelledProfiles == {"WhatWg", "WhatWgSortQuery", "canon:remove_userinfo", "canon:remove_port", "canon:remove_fragment", "canon:sort_keys", "canon:sort_param",
+                     "canon:default_scheme", "canon:repeated_decode", "canon:remove_userinfo+remove_port+remove_fragment+sort_keys+default_scheme+repeated_decode",
+                     "canon:remove_fragment+sort_param+repeated_decode", "canon:remove_port+sort_keys"}
+
+(* bytes of a Go string given as text (raw pseudo code points are single bytes) *)
+BytesOf(t) == Flat([i \in 1..Len(t) |-> IF IsRaw(t[i]) THEN <<t[i] - RawBase>> ELSE Utf8(t[i])])
+RECURSIVE DecodeBytesAcc(_, _)
+DecodeBytesAcc(b, i) == IF i > Len(b) THEN <<>>
+                        ELSE IF IsPctTriple(b, i) THEN <<16 * HexVal(b[i+1]) + HexVal(b[i+2])>> \o DecodeBytesAcc(b, i + 3)
+                        ELSE <<b[i]>> \o DecodeBytesAcc(b, i + 1)
+DecodeBytes(b) == DecodeBytesAcc(b, 1)
+RECURSIVE RepeatedDecode(_)
+RepeatedDecode(b) == LET d == DecodeBytes(b) IN IF d = b THEN b ELSE RepeatedDecode(d)       \* decode to a fixed point
+EncodeBytes(S, b) == Flat([i \in 1..Len(b) |-> IF InSet(SetAdd(S, {37}), b[i]) THEN PctByte(b[i]) ELSE <<b[i]>>])   \* encode once; '%' always
+DecodeEncode(t, S) == EncodeBytes(S, RepeatedDecode(BytesOf(t)))
+LaxPathSet == SetDel(SetPath, {46, 60, 62})
+RepQuerySet == SetAdd(SetC0Space, {35, 37, 38, 61})
+
+(* parameter lists are kept as BYTE strings here (Go strings): the canonicalizer works on bytes, and a decoded name may not be UTF-8 *)
+PairBytes(item) == LET k == IndexOf(item, 61) IN
+                   IF k = 0 THEN <<PctDecode(PlusToSpace(item)), <<>>>>
+                   ELSE <<PctDecode(PlusToSpace(SubSeq(item, 1, k - 1))), PctDecode(PlusToSpace(Drop(item, k)))>>
+ParseQBytes(q) == LET items == SelectSeq(Split(q, 38), NonEmpty) IN [i \in 1..Len(items) |-> PairBytes(items[i])]
+(* the library's serializer on a byte string: it ranges over RUNES - an invalid byte becomes U+FFFD, a space '+' *)
+RECURSIVE ImplEscBytes(_, _)
+ImplEscBytes(b, i) ==
+  IF i > Len(b) THEN <<>>
+  ELSE LET r == Utf8At(b, i) IN
+       (IF r[1] = -1 THEN PctCp(65533) ELSE IF r[1] = 32 THEN <<43>> ELSE EncCp(SetQuery, r[1])) \o ImplEscBytes(b, i + r[2])
+SerQBytes(l) == IF l = <<>> THEN <<>>
+                ELSE JoinWith([i \in 1..Len(l) |-> ImplEscBytes(l[i][1], 1) \o <<61>> \o ImplEscBytes(l[i][2], 1)], 38)
+WriteBack(u, l) == LET q == SerQBytes(l) IN [u EXCEPT !.query = IF q # <<>> THEN Some(q) ELSE IF u.query # None THEN Some(<<>>) ELSE None]
+ListNow(u, lst) == IF lst # None THEN Get(lst) ELSE IF u.query = None THEN <<>> ELSE ParseQBytes(Get(u.query))
+DecodeEncodeB(b, S) == EncodeBytes(S, RepeatedDecode(b))
+
+(* the result: [u, asked] ; asked = TRUE when a non-trivial domain would need the IDNA oracle (no prediction) *)
+CanonSteps(pr, u0) ==
+  LET doHost == pr.repeated /\ Hostname(u0) # <<>>
+      hostStep == IF doHost THEN ParseOvO(DecodeEncode(Hostname(u0), SetHostPE), u0, "hostname", None, DefaultOpts) ELSE [u |-> u0, asked |-> None]
+      u1 == hostStep.u
+      u2 == IF pr.repeated /\ SerPath(u1) # <<>> THEN SetPathnameO(DefaultOpts, u1, DecodeEncode(SerPath(u1), LaxPathSet)) ELSE u1
+      doIter == pr.repeated /\ Search(u2) # <<>>
+      l3 == IF doIter THEN Some([i \in 1..Len(ListNow(u2, None)) |->
+                                 <<DecodeEncodeB(ListNow(u2, None)[i][1], RepQuerySet), DecodeEncodeB(ListNow(u2, None)[i][2], RepQuerySet)>>])
+            ELSE None
+      u3 == IF doIter THEN WriteBack(u2, Get(l3)) ELSE u2
+      u4 == IF ~pr.repeated THEN u3
+            ELSE IF Hash(u3) # <<>> THEN SetHashO(DefaultOpts, u3, DecodeEncode(Fragment(u3), SetHostPE)) ELSE SetHashO(DefaultOpts, u3, <<>>)
+      u5 == IF pr.removePort THEN SetPortO(DefaultOpts, u4, <<>>) ELSE u4
+      u6 == IF pr.removeUserInfo THEN SetPassword(SetUsername(u5, <<>>), <<>>) ELSE u5
+      u7 == IF pr.removeFragment THEN SetHashO(DefaultOpts, u6, <<>>) ELSE u6
+      u8 == IF pr.sort = "keys" THEN WriteBack(u7, SortByName(ListNow(u7, l3)))
+            ELSE IF pr.sort = "param" THEN WriteBack(u7, SortByBoth(ListNow(u7, l3))) ELSE u7
+  IN [u |-> u8, asked |-> hostStep.asked # None]
+CanonRun(name, in) ==
+  LET pr == ProfileOf(name)
+      r0 == Parse(in, None, None)
+      r == IF r0.res = "fail" /\ r0.failAt = "noScheme" /\ pr.defaultScheme # <<>>
+           THEN Parse(pr.defaultScheme[1] \o <<58, 47, 47>> \o in, None, None) ELSE r0
+  IN IF r.asked # None THEN [fail |-> FALSE, asked |-> TRUE, u |-> EmptyUrl]
+     ELSE IF r.res = "fail" THEN [fail |-> TRUE, asked |-> FALSE, u |-> EmptyUrl]
+     ELSE LET c == CanonSteps(pr, r.u) IN [fail |-> FALSE, asked |-> c.asked, u |-> c.u]
 ====
